@@ -1490,7 +1490,8 @@ _RAISES = ("raises",)
 def _computed_spelling(m) -> bool:
     """spellings the evaluator does not read: arguments passed as **table, attributes named by a computed string (the canonical
     body writes both out)"""
-    return any(isinstance(n, ast.Call) and (any(k.arg is None and not isinstance(k.value, ast.Dict) for k in n.keywords)
+    return any(isinstance(n, ast.Call) and (u(n.func).split(".")[-1] in ("methodcaller", "attrgetter", "itemgetter", "partial", "starmap", "filter")
+                                            or any(k.arg is None and not isinstance(k.value, ast.Dict) for k in n.keywords)
                                             or (isinstance(n.func, ast.Name) and n.func.id == "getattr" and len(n.args) >= 2
                                                 and not isinstance(n.args[1], ast.Constant))) for n in ast.walk(m))
 
